@@ -751,10 +751,11 @@ class YearOptionStream(Stream):
 
 
 import c20s11     # noqa: E402  (needs the helpers above)
+import c20s15     # noqa: E402
 
 PROPERTY = Property(
     pid="C20",
-    streams=[textcorr.CSearchStream(), MakeParseStream(), TheoremStream(), TheoremFullStream(), textcorr.MergeStream(), MergeOracleStream(), MergeTheoremStream(), MergeCoverageStream(), HeaderMergeStream(), YearOptionStream()] + pystr.DIGIT_STREAMS + c20s11.STREAMS,
+    streams=[textcorr.CSearchStream(), MakeParseStream(), TheoremStream(), TheoremFullStream(), textcorr.MergeStream(), MergeOracleStream(), MergeTheoremStream(), MergeCoverageStream(), HeaderMergeStream(), YearOptionStream()] + pystr.DIGIT_STREAMS + c20s11.STREAMS + c20s15.STREAMS,
     assumptions=[
         "CPython's re engine on the three copyright patterns is mirrored by Model.searchLine (prefix extension candidates in backtracking "
         "priority, greedy white space, year alternatives, lazy statement up to END) and compared on every run; END is generated from the source",
